@@ -91,6 +91,12 @@ func propC08(c *Ctx, r *Report) {
 	r.Clauses = append(r.Clauses, "syntax-tree walkers (E3): every function reachable from the parser / lowerer entry points that walks the parser's tree (a type switch over Expr, Stmt, Type or Decl nodes using every child in >= 3/4 of its arms) uses every child node of every variant it has an arm for and, when it has no default arm, has an arm for every variant that has children (a declaration referenced only through an unvisited child is ordered after its user and the valid program is rejected)")
 	c.runFrontendASTWalkers(r, "frontend")
 	r.floor("frontend.astwalkers", 8)
+	r.Clauses = append(r.Clauses, userShadowClause, innerFirstClause)
+	c.runUserShadow(r, "call.usershadow", "wgsl/internal/lower")
+	r.floor("call.usershadow", 1)
+	c.runInnerFirst(r, "lookup.innerfirst", "wgsl/internal/lower", nil)
+	r.floor("lookup.innerfirst", 2)
+	r.floor("lookup.functionScopeTables", 5)
 	r.Clauses = append(r.Clauses, "template list ends (E49): every expectation of the '>' that closes a template list goes through the one helper that also splits '>>', '>=' and '>>='")
 	c.runTemplateClose(r, "template.close", "wgsl/internal/parser")
 	r.floor("template.close", 5)
@@ -117,3 +123,7 @@ func propC08(c *Ctx, r *Report) {
 	c.runScopeRestore(r, "scope.restore", "wgsl/internal/lower", "Lowerer", "scopeSet", "popScope", map[string]string{"localDecls": "unused-variable warning bookkeeping (declaration spans): read only by the warning pass, never by name resolution"})
 	r.floor("scope.bindingmaps", 4)
 }
+
+const userShadowClause = "declared functions shadow built-ins (E67): the lowerer's call dispatcher looks the callee up among the functions the program declares before the first test that recognises the name as a built-in"
+
+const innerFirstClause = "innermost declaration first (E68): a function that looks one name up both in a function-scope table (a string-keyed map field cleared at the start of every function) and in a module-scope table consults the function-scope table first"
